@@ -432,7 +432,7 @@ impl Property for C13 {
             knobs: Knobs { max_nodes: 3, small: true, ..Default::default() },
         };
         match tier {
-            Tier::Quick => vec![mk("edit", 30_000, 0), mk("respell", 10_000, 1), mk("unrelated", 10_000, 2), mk("nodes", 10_000, 3), small],
+            Tier::Quick => vec![mk("edit", 200_000, 0), mk("respell", 60_000, 1), mk("unrelated", 60_000, 2), mk("nodes", 60_000, 3), small],
             Tier::Thorough => vec![mk("edit", 1_000_000, 0), mk("respell", 300_000, 1), mk("unrelated", 300_000, 2), mk("nodes", 300_000, 3), small],
         }
     }
